@@ -18,6 +18,7 @@ type Sc struct{ T, S string } // scalar term with sort
 type SliceV struct {
 	Ref, Off, Len, Cap string
 	Elem               types.Type
+	Str                string // when the slice was created from a string: that string (content at creation)
 }
 
 type StructV struct {
@@ -107,6 +108,7 @@ type State struct {
 	defers    []*ssa.Defer
 	oldHeaps  map[string]string // heaps at function entry
 	entryVals map[string]Value  // entry values of parameters by name
+	known     map[string]bool   // atoms asserted on this path (syntactic pruning of branches)
 }
 
 func (s *State) clone() *State {
@@ -141,6 +143,10 @@ func (s *State) clone() *State {
 	}
 	for k, v := range s.ghost {
 		n.ghost[k] = v
+	}
+	n.known = make(map[string]bool, len(s.known))
+	for k, b := range s.known {
+		n.known[k] = b
 	}
 	n.facts = append([]string(nil), s.facts...)
 	n.decls = append([]string(nil), s.decls...)
@@ -181,6 +187,55 @@ func (s *State) assume(f string) {
 		return
 	}
 	s.facts = append(s.facts, f)
+	s.learn(f, true)
+}
+
+func (s *State) learn(f string, pol bool) {
+	if s.known == nil {
+		s.known = map[string]bool{}
+	}
+	if strings.HasPrefix(f, "(not ") && balanced(f[5:len(f)-1]) {
+		s.learn(f[5:len(f)-1], !pol)
+		return
+	}
+	if pol && strings.HasPrefix(f, "(and ") {
+		for _, c := range splitTop(f[5 : len(f)-1]) {
+			s.learn(c, true)
+		}
+		return
+	}
+	if !pol && strings.HasPrefix(f, "(or ") {
+		for _, c := range splitTop(f[4 : len(f)-1]) {
+			s.learn(c, false)
+		}
+		return
+	}
+	s.known[f] = pol
+}
+
+// splitTop splits a space-separated list of S-expressions at top level.
+func splitTop(s string) []string {
+	var out []string
+	d, start := 0, 0
+	for i := 0; i < len(s); i++ {
+		switch s[i] {
+		case '(':
+			d++
+		case ')':
+			d--
+		case ' ':
+			if d == 0 {
+				if i > start {
+					out = append(out, s[start:i])
+				}
+				start = i + 1
+			}
+		}
+	}
+	if start < len(s) {
+		out = append(out, s[start:])
+	}
+	return out
 }
 
 // ---- sorts for Go types ----
@@ -279,7 +334,7 @@ func (e *Engine) fresh(s *State, t types.Type, hint string) Value {
 		s.assume(app("<=", ln, cp))
 		s.assume(app("<", ref, s.entryBase)) // pre-existing storage
 		s.assume(app("<=", "0", ref))
-		return SliceV{ref, off, ln, cp, u.Elem()}
+		return SliceV{Ref: ref, Off: off, Len: ln, Cap: cp, Elem: u.Elem()}
 	case *types.Struct:
 		sv := StructV{T: t}
 		for i := 0; i < u.NumFields(); i++ {
@@ -338,7 +393,7 @@ func (e *Engine) zero(s *State, t types.Type) Value {
 	}
 	switch u := t.Underlying().(type) {
 	case *types.Slice:
-		return SliceV{"0", "0", "0", "0", u.Elem()}
+		return SliceV{Ref: "0", Off: "0", Len: "0", Cap: "0", Elem: u.Elem()}
 	case *types.Struct:
 		if isTextBuffer(t) {
 			return Sc{"str.empty", SStr}
